@@ -63,6 +63,25 @@ fn eval_ref(ctx: &Context, q: &str) -> Result<Result<QueryReply, QueryError>, St
     })
 }
 
+/// the class of a query, read off its words alone (the lexer's tokens, nothing of the parser or the
+/// evaluator whose replies are being judged): a line that starts with a command word is a command
+/// whatever follows (`search 5`), a line with an arrow is a conversion even when nothing follows the
+/// arrow (`5 m ->`); everything else is a plain expression
+pub fn is_plain_expression(q: &str) -> bool {
+    use rink_core::parsing::text_query::Token;
+    let mut it = TokenIterator::new(q.trim());
+    let mut first = true;
+    loop {
+        match it.next() {
+            Some(Token::Eof) | None => return true,
+            Some(Token::Ident(s)) if first && (s == "search" || s == "factorize" || s == "units") => return false,
+            Some(Token::DashArrow) => return false,
+            _ => {}
+        }
+        first = false;
+    }
+}
+
 fn uses_ans(q: &str) -> bool {
     let mut it = TokenIterator::new(q);
     loop {
@@ -173,15 +192,8 @@ pub fn check(env: &Env, c: &Case, st: &mut Stats) -> CaseResult {
         }
         // reference model of `ans`: only a *plain expression* may set it - a conversion, a
         // command or a definition lookup leaves it alone whatever form its reply takes. The
-        // class of the query is read off its parse (rink's parser, which eval() shares, but not
-        // the evaluator whose replies are being judged).
-        let plain = matches!(
-            catch(|| {
-                let mut it = rink_core::parsing::text_query::TokenIterator::new(q.trim()).peekable();
-                rink_core::parsing::text_query::parse_query(&mut it)
-            }),
-            Ok(rink_core::ast::Query::Expr(_))
-        );
+        // class of the query is read off its words (see is_plain_expression), not off rink's parse.
+        let plain = is_plain_expression(q);
         if !plain {
             st.class("step_not_a_plain_expression");
         }
@@ -305,12 +317,12 @@ fn query_strategy() -> impl Strategy<Value = String> {
         3 => (n(), proptest::sample::select(vec!["ft -> m", "km -> mile", "°C -> °F", "hour -> hour;min;sec", " -> digits 5", " -> hex", " -> base 10", " -> base 16", " -> base 2", " -> bin", " -> oct", " -> digits 5 base 10", " -> frac", " -> sci", " -> eng base 10", "kg -> lb;oz", "W -> horsepower", "m -> potato = 3 ft"])).prop_map(|(a, t)| format!("{} {}", a, t)),
         // definition lookups and commands
         2 => proptest::sample::select(vec!["foot", "watt", "kg", "power", "mile", "c", "pi"]).prop_map(|s| s.to_string()),
-        2 => proptest::sample::select(vec!["units for velocity", "units for kg", "factorize velocity", "factorize m/s", "search mile", "search watt", "units of area"]).prop_map(|s| s.to_string()),
+        2 => proptest::sample::select(vec!["units for velocity", "units for kg", "factorize velocity", "factorize m/s", "search mile", "search watt", "units of area", "search 5", "search 42 m", "search 7 + 1", "search 'mile'", "search", "factorize 6", "units for 5 m", "units 3", "search ans"]).prop_map(|s| s.to_string()),
         // substances and dates
         2 => proptest::sample::select(vec!["water", "density of water", "H2O", "5 kg water", "molar_mass of NaCl", "gold"]).prop_map(|s| s.to_string()),
         2 => proptest::sample::select(vec!["#2020-01-01#", "#2020-01-01 12:00:00 +05:00#", "#2020-01-02# - #2020-01-01#", "#2020-01-01# + 3 days", "#2020-03-01# -> +02:00"]).prop_map(|s| s.to_string()),
         // failures
-        2 => proptest::sample::select(vec!["1 +", "(", ")", "1 ^", "-> m", "#nonsense#", "'unterminated"]).prop_map(|s| s.to_string()),
+        2 => proptest::sample::select(vec!["1 +", "(", ")", "1 ^", "-> m", "#nonsense#", "'unterminated", "5 m ->", "7 ->", "ans ->", "9 -> ->"]).prop_map(|s| s.to_string()),
         2 => proptest::sample::select(vec!["xyzzy", "3 flurbs", "metre", "5 xyzzy -> m"]).prop_map(|s| s.to_string()),
         2 => proptest::sample::select(vec!["5 m -> s", "5 m + 3 s", "1 kg -> m^2", "hypot(3 m, 4 s)", "3 m °C"]).prop_map(|s| s.to_string()),
         2 => proptest::sample::select(vec!["1/0", "5 mod 0", "0^-1", "1 m / 0 s", "1|0"]).prop_map(|s| s.to_string()),
